@@ -19,8 +19,14 @@ RULE = ('sent: Rmcp._send_ipmi_msg through a fake socket for every payload lengt
         'datagrams built from the IPMI v1.5 packet figure (all auth-type bytes, payload lengths 0..255 sampled), '
         'every truncation, 1..3-byte extensions and 5 alterations of every header byte, both settings of '
         'rmcp_ignore_sdu_length, through Rmcp._receive_ipmi_msg; compared with the model and judged by '
-        'Spec.Lan.receive.  ASF: Rmcp.ping() datagram against the ASF figure; pongs built from the figure and '
-        'their truncations / extensions / byte alterations through _receive_asf_msg.  MD5: the Lean RFC 1321 '
+        'Spec.Lan.receive.  ASF: Rmcp.ping() datagram against the ASF figure; presence pongs built from the figure of '
+        'ASF 2.0 3.2.4.3 / IPMI v2.0 table 13-6 (never with AsfPong.pack) through _receive_asf_msg(AsfPong) AND through '
+        'Rmcp.ping() (the pong echoes the tag of the ping that was really sent): every Supported Interactions byte '
+        '0..255, every Supported Entities byte 0..255 (with interactions 00h and 80h), the defined bits combined '
+        '(80h, 20h, A0h) x entities {81h, 01h, 80h, 00h} x OEM numbers {4542/0, other/any}, every tag, random '
+        'combinations (thorough: all 65 536 entity x interaction pairs); each must be accepted and the AsfPong '
+        'object must hold exactly the fields Spec.Lan.parsePong reads; truncations / extensions / byte alterations, '
+        'a ping in place of the pong, foreign enterprise numbers.  MD5: the Lean RFC 1321 '
         'implementation against hashlib on the RFC test suite and every length 0..130.  Histories: sequences of '
         'sends through ONE Rmcp and ONE Session object with password (set_auth_type_user and direct attribute), '
         'authentication type, session id, sequence number, activated flag and the session object itself (none / '
@@ -37,8 +43,17 @@ ASSUMPTIONS = [
     'the theorems take the digest function as a parameter; hashlib.md5 is trusted and cross-checked against the Lean RFC 1321 implementation',
     'CPython semantics of struct / array / bytes.ljust / slicing are modelled, not verified',
     '"rejected" means any exception (short datagrams raise struct.error / IndexError rather than DecodingError)',
-    'a pong whose supported-interactions byte is not 0, or whose OEM fields fail check_data, is rejected by the library; '
-    'the property does not decide this and it is only compared with the model',
+    'a well-formed presence pong (Spec.Lan.Pong.WellFormed, from ASF 2.0 3.2.4.3 / IPMI v2.0 table 13-6) has ASF '
+    'enterprise number 4542 in the ASF header, type 40h, data length 10h, RMCP sequence FFh, reserved bytes 00h, and an '
+    'all-zero OEM-defined field when the data block names enterprise 4542; BOTH capability bytes are free (reserved bits '
+    'are ignored on receipt: ASF 2.0 assigned bit 7 of Supported Interactions, DASH bit 5): every such pong must be '
+    'accepted; which variant of AsfPong.check_data the tree has (as shipped: interactions byte must be 0) is probed '
+    'with the witness of pong_interactions_asShipped_counterexample',
+    'the receiver may be MORE lenient than the format without breaking the property: the library accepts a type-40h '
+    'message with a foreign enterprise number in the ASF header, non-zero reserved bytes, and does not compare the '
+    'message tag of the pong with the ping it sent (every ping has tag 0, the result of ping() is only "somebody '
+    'answered"); these are compared with the model only.  A pong that names enterprise 4542 with a non-zero '
+    'OEM-defined field is not well-formed, its rejection is not judged',
     'the send model is a function of the session configuration at the moment of sending (Sess: auth type, session id, '
     'sequence number, activated, password); histories on one real Session / Rmcp object are compared send by send '
     'with the model applied to the configuration the caller put last',
@@ -118,21 +133,32 @@ def real_recv(ignore, dgram):
     return 'ok', bytes(bytearray(d))
 
 
+def _pong_attrs(msg):
+    return 'ok %d %d %d %d %d %d %d' % (msg.iana_enterprise_number, msg.asf_type, msg.tag, msg.oem_iana_enterprise_number,
+                                         msg.oem_defined, msg.supported_entities, msg.supported_interactions)
+
+
 def real_pong(dgram):
+    """Rmcp._receive_asf_msg(AsfPong) on the datagram: 'ok <attributes of the AsfPong object>' or the exception"""
     from pyipmi.interfaces import rmcp
     r = _rmcp()
     r._sock.push(dgram)
     try:
-        r._receive_asf_msg(rmcp.AsfPong)
+        msg = r._receive_asf_msg(rmcp.AsfPong)
     except Exception as e:  # noqa
         return _tag(e)
-    return 'ok'
+    return _pong_attrs(msg)
 
 
 def real_ping(pong):
+    """Rmcp.ping(); `pong`: the datagram that answers, or a function of the ping that was sent (a responder that
+    echoes its message tag, as a managed device does)."""
     r = _rmcp()
     rs = r.seq_number
-    r._sock.push(pong)
+    if callable(pong):
+        r._sock.responder = lambda dg: [pong(dg)]
+    else:
+        r._sock.push(pong)
     try:
         r.ping()
         out = 'ok'
@@ -304,7 +330,50 @@ def judge_recv(ctx, drv, case, variant, model=None, verbose=False, obs=None, rep
                         expected='rejected', observed=code_s)
 
 
-def judge_pong(ctx, drv, case, model=None, verbose=False):
+PLAIN_PONG = (0, 4542, 0, 0x81, 0)
+# the witness of Props.C05.pong_interactions_asShipped_counterexample: IPMI, ASF 1.0, RMCP security extensions
+SECEXT_PONG = (0, 4542, 0, 0x81, 0x80)
+
+
+def _probe_pong_variant():
+    """Which variant of `AsfPong.check_data` the tree has: 's' as shipped (a pong whose Supported Interactions
+    byte is not 0 is refused) or 'i' intended."""
+    return 's' if real_pong(pong_datagram(*SECEXT_PONG)) == 'DecodingError' else 'i'
+
+
+def _why_rejected(p):
+    """a specific signature suffix: the field whose value makes the tree refuse the well-formed pong `p`"""
+    tag, oi, od, en, ia = p
+    def ok(q):
+        return real_pong(pong_datagram(*q)).startswith('ok')
+    if ia != 0 and ok((tag, oi, od, en, 0)):
+        return ':supported-interactions', 'Supported Interactions byte %02xh' % ia
+    if en != 0x81 and ok((tag, oi, od, 0x81, ia)):
+        return ':supported-entities', 'Supported Entities byte %02xh' % en
+    if tag != 0 and ok((0, oi, od, en, ia)):
+        return ':message-tag', 'message tag %02xh' % tag
+    if (oi, od) != (4542, 0) and ok((tag, 4542, 0, en, ia)):
+        return ':oem-fields', 'OEM enterprise number %d / OEM-defined %08xh' % (oi, od)
+    return '', None
+
+
+def _spec_pong(ctx, drv, dgram, case):
+    """Spec.Lan.parsePong: the fields of the well-formed pong `dgram` is, or None; cross-checked with the figure in
+    Python"""
+    sp = drv.ask('specpong ' + lean.hexs(dgram)).split()
+    p = tuple(int(x) for x in sp[1:]) if sp[0] == 'some' else None
+    py = None
+    if len(dgram) == 28:
+        q = (dgram[9], int.from_bytes(dgram[12:16], 'big'), int.from_bytes(dgram[16:20], 'big'), dgram[20], dgram[21])
+        if dgram == pong_datagram(*q) and not (q[1] == 4542 and q[2] != 0):
+            py = q
+    if p != py:
+        ctx.disagree('oracle-pong', case, 'Spec.Lan.parsePong=%s' % (p,), 'python figure says %s' % (py,))
+        return None
+    return p
+
+
+def judge_pong(ctx, drv, case, variant, model=None, verbose=False):
     dgram = bytes.fromhex(case['dgram']) if case['dgram'] != '-' else b''
     out = real_pong(dgram)
     if verbose:
@@ -312,39 +381,70 @@ def judge_pong(ctx, drv, case, model=None, verbose=False):
     if model is not None and model != out:
         ctx.disagree('pong', case, model, out)
     fmt = drv.ask('ispong ' + lean.hexs(dgram))
-    ctx.count('pong:outcome:' + out)
+    ctx.count('pong:outcome:' + out.split()[0])
     if fmt != '1':
-        if out == 'ok':
+        if out.startswith('ok'):
             ctx.violate('C05:asf:accepts-non-pong', 'a datagram that is not a presence pong is accepted as one', case,
                         expected='rejected', observed='accepted')
         return
-    # a well-formed pong; the library's extra content checks are outside the property
-    iana = int.from_bytes(dgram[4:8], 'big')
-    oem_iana = int.from_bytes(dgram[12:16], 'big')
-    oem_def = int.from_bytes(dgram[16:20], 'big')
-    inter = dgram[21]
-    plain = iana == 4542 and inter == 0 and not (oem_iana == 4542 and oem_def != 0)
-    ctx.count('pong:wellformed:' + ('plain' if plain else 'content-checked'))
-    if plain and out != 'ok':
-        ctx.violate('C05:asf:rejects-pong', 'a well-formed presence pong is rejected with %s' % out, case,
-                    expected='accepted', observed=out)
+    p = _spec_pong(ctx, drv, dgram, case)
+    if verbose:
+        print('  Spec.Lan.parsePong: %s' % (p,))
+    if p is None:
+        # has the outline of a pong but not every field as the format prescribes (foreign enterprise number in the
+        # ASF header, reserved bytes, RMCP sequence byte, 4542 with an OEM-defined value): not judged
+        ctx.count('pong:format-only')
+        return
+    ctx.count('pong:wellformed')
+    ctx.count('pong:wellformed:interactions:' + ('00' if p[4] == 0 else 'defined-bits' if p[4] in (0x80, 0x20, 0xa0) else 'other'))
+    ctx.count('pong:wellformed:entities:' + ('81' if p[3] == 0x81 else 'other'))
+    want = 'ok 4542 64 %d %d %d %d %d' % p
+    if not out.startswith('ok'):
+        suffix, which = _why_rejected(p)
+        ctx.violate('C05:asf:rejects-pong' + suffix, 'a well-formed presence pong is rejected with %s%s'
+                    % (out, ' because of its %s' % which if which else ''), case,
+                    expected='accepted: ' + want[3:], observed=out)
+    elif out != want:
+        ctx.violate('C05:asf:pong-fields', 'the AsfPong object does not hold the fields of the pong it unpacked '
+                    '(enterprise number, type, tag, OEM number, OEM-defined, entities, interactions)', case,
+                    expected=want[3:], observed=out[3:])
 
 
-def judge_ping(ctx, drv, case, model=None, verbose=False):
-    pong = pong_datagram(0, 4542, 0, 0x81, 0)
-    out, sent, rs = real_ping(pong)
+def judge_ping(ctx, drv, case, variant, model=None, verbose=False):
+    """Rmcp.ping() answered by a well-formed pong that echoes the tag of the ping really sent"""
+    p = tuple(case.get('pong', PLAIN_PONG)[1:])
+
+    def answer(dg):
+        return pong_datagram(dg[9] if len(dg) > 9 else 0, *p)
+    out, sent, rs = real_ping(answer)
     code_s = out if sent is None else 'ok ' + lean.hexs(sent)
     if verbose:
-        print('  real: %s (%s)' % (code_s, out))
+        print('  real: sent %s, ping() -> %s' % (code_s, out))
     if model is not None and model != code_s:
         ctx.disagree('ping', case, model, code_s)
-    want = lean.unhex(drv.ask('specping %d 0' % rs))
-    py = bytes([6, 0, rs, 6, 0, 0, 0x11, 0xbe, 0x80, 0, 0, 0])
+    tag = sent[9] if (sent is not None and len(sent) > 9 and sent[9] != 0xff) else 0
+    want = lean.unhex(drv.ask('specping %d %d' % (rs, tag)))
+    py = bytes([6, 0, rs, 6, 0, 0, 0x11, 0xbe, 0x80, tag, 0, 0])
     if want != py:
         ctx.disagree('oracle-ping', case, lean.hexs(want), lean.hexs(py))
-    if sent != want or out != 'ok':
-        ctx.violate('C05:asf:ping-format', 'the presence ping does not follow the ASF format (or ping() fails on a valid pong)',
+    if sent != want:
+        ctx.violate('C05:asf:ping-format', 'the presence ping does not follow the ASF format',
                     case, expected=lean.hexs(want), observed=code_s)
+        return
+    pong = answer(sent)
+    m = drv.ask('pong %s %s' % (variant, lean.hexs(pong))).split()[0]
+    if m != out:
+        ctx.disagree('ping-pong', case, m, out)
+    q = _spec_pong(ctx, drv, pong, case)
+    if verbose:
+        print('  pong: %s' % lean.hexs(pong))
+        print('  Spec.Lan.parsePong: %s' % (q,))
+    ctx.count('ping:outcome:' + out)
+    if q is not None and out != 'ok':
+        suffix, which = _why_rejected(q)
+        ctx.violate('C05:asf:rejects-pong' + suffix, 'Rmcp.ping() - the first step of establish_session - fails with %s on a '
+                    'well-formed presence pong%s' % (out, ' because of its %s' % which if which else ''), case,
+                    expected='ping() returns', observed=out)
 
 
 # ----------------------------------------------------------------- generators
@@ -441,8 +541,56 @@ def _mutations(rng, auth, d, tier):
     return out
 
 
-def _pong_cases(rng, tier):
+def _wellformed_pongs(rng, tier):
+    """(tag, OEM enterprise number, OEM-defined, supported entities, supported interactions) of well-formed pongs"""
     out = []
+    for ia in range(256):                                   # every Supported Interactions byte
+        out.append((0, 4542, 0, 0x81, ia))
+    for en in range(256):                                   # every Supported Entities byte
+        out.append((0, 4542, 0, en, 0))
+        out.append((0, 4542, 0, en, 0x80))
+    for ia in (0x80, 0x20, 0xa0, 0x00):                     # the bits ASF 2.0 / DASH define, combined
+        for en in (0x81, 0x01, 0x80, 0x00):
+            for oi, od in ((4542, 0), (343, 0), (343, 0xdeadbeef), (0, 0), (0xffffffff, 0xffffffff),
+                           (rng.randrange(2 ** 32), rng.randrange(2 ** 32))):
+                if oi != 4542 or od == 0:
+                    out.append((rng.choice((0, 0, 1, 0xfe, 0xff, rng.randrange(256))), oi, od, en, ia))
+    for tag in range(256):                                  # every message tag
+        out.append((tag, 4542, 0, 0x81, rng.choice((0, 0x80))))
+    if tier == 'thorough':
+        for en in range(256):
+            for ia in range(256):
+                out.append((0, 4542, 0, en, ia))
+    for _ in range(300 if tier == 'quick' else 5000):
+        oi = rng.choice((4542, 343, rng.randrange(2 ** 32)))
+        od = 0 if oi == 4542 else rng.choice((0, 1, rng.randrange(2 ** 32)))
+        out.append((rng.randrange(256), oi, od, rng.randrange(256), rng.randrange(256)))
+    seen, uniq = set(), []
+    for p in out:
+        if p not in seen:
+            seen.add(p)
+            uniq.append(p)
+    return uniq
+
+
+def _ping_cases(rng, tier):
+    out = [PLAIN_PONG, SECEXT_PONG]
+    for ia in range(256):
+        out.append((0, 4542, 0, 0x81, ia))
+    for en in range(0, 256, 1 if tier == 'thorough' else 5):
+        out.append((0, 4542, 0, en, rng.choice((0, 0x80, 0x20, 0xa0))))
+    for _ in range(20 if tier == 'quick' else 400):
+        out.append((0, rng.choice((343, rng.randrange(2 ** 32))), rng.randrange(2 ** 32), rng.randrange(256), rng.randrange(256)))
+    seen, uniq = set(), []
+    for p in out:
+        if p not in seen:
+            seen.add(p)
+            uniq.append(p)
+    return uniq
+
+
+def _pong_cases(rng, tier):
+    out = [('wellformed', pong_datagram(*p)) for p in _wellformed_pongs(rng, tier)]
     for i in range(12 if tier == 'quick' else 120):
         oem_iana = rng.choice([4542, 0, 343, rng.randrange(2 ** 32)])
         oem_def = rng.choice([0, 0, 1, rng.randrange(2 ** 32)])
@@ -459,6 +607,19 @@ def _pong_cases(rng, tier):
                 for v in set([(d[pos] + 1) & 0xff, d[pos] ^ 0x80, 0, 0xff]):
                     if v != d[pos]:
                         out.append(('alter@%d' % pos, d[:pos] + bytes([v]) + d[pos + 1:]))
+    # the same alterations of a pong that advertises the security extensions
+    d = pong_datagram(*SECEXT_PONG)
+    for k in range(len(d)):
+        out.append(('truncation', d[:k]))
+    for pos in range(len(d)):
+        for v in set([(d[pos] + 1) & 0xff, d[pos] ^ 0x80, 0, 0xff]):
+            if v != d[pos]:
+                out.append(('alter@%d' % pos, d[:pos] + bytes([v]) + d[pos + 1:]))
+    # not well-formed: enterprise 4542 with an OEM-defined value; foreign enterprise number in the ASF header
+    out.append(('oem-4542-defined', pong_datagram(0, 4542, 5, 0x81, 0)))
+    out.append(('oem-4542-defined', pong_datagram(0, 4542, 5, 0x81, 0x80)))
+    out.append(('foreign-iana', pong_datagram(0, 4542, 0, 0x81, 0, iana=1234)))
+    out.append(('foreign-iana', pong_datagram(0, 4542, 0, 0x81, 0x80, iana=1234)))
     # data length byte 0 (pong without data) and an ASF ping in place of the pong
     out.append(('no-data', bytes([6, 0, 0xff, 6, 0, 0, 0x11, 0xbe, 0x40, 0, 0, 0])))
     out.append(('ping', bytes([6, 0, 0xff, 6, 0, 0, 0x11, 0xbe, 0x80, 0, 0, 0])))
@@ -785,15 +946,20 @@ def run(ctx):
     ctx.sample({'recv': rx[5], 'model': models[5]})
     _run_recv_histories(ctx, drv, ctx.rng('c05-recv-history'), rx, models, variant)
     # ---- ASF
+    pv = _probe_pong_variant()
+    ctx.extra['pong_check_data_variant'] = 'asShipped' if pv == 's' else 'intended'
     m = drv.ask('ping 255')
-    ctx.case(('ping',))
-    judge_ping(ctx, drv, {'op': 'ping'}, m)
+    for p in _ping_cases(rng, ctx.tier):
+        c = {'op': 'ping', 'pong': ['echo-tag'] + list(p[1:])}
+        ctx.case(('ping', p), nontrivial=p != PLAIN_PONG)
+        ctx.count('ping:pong:' + ('plain' if p == PLAIN_PONG else 'interactions-00' if p[4] == 0 else 'interactions-set'))
+        judge_ping(ctx, drv, c, pv, m)
     pc = [{'op': 'pong', 'kind': k, 'dgram': lean.hexs(d)} for k, d in _pong_cases(rng, ctx.tier)]
-    models = drv.ask_many(['pong ' + c['dgram'] for c in pc])
+    models = drv.ask_many(['pong %s %s' % (pv, c['dgram']) for c in pc])
     for c, m in zip(pc, models):
         ctx.case(('pong', c['dgram']), nontrivial=c['kind'] != 'valid')
         ctx.count('pong:kind:' + c['kind'].split('@')[0])
-        judge_pong(ctx, drv, c, m)
+        judge_pong(ctx, drv, c, pv, m)
     ctx.sample({'pong': pc[0], 'model': models[0]})
     if _facts is not None:
         ctx.extra['generated'] = {'packHeaderArgs': _facts['packHeaderArgs'], 'md5Args': _facts['md5Args'],
@@ -831,9 +997,9 @@ def replay(ctx, v):
     elif case['op'] == 'recv':
         judge_recv(c2, drv, case, _probe_empty_variant(), None, verbose=True)
     elif case['op'] == 'pong':
-        judge_pong(c2, drv, case, None, verbose=True)
+        judge_pong(c2, drv, case, _probe_pong_variant(), None, verbose=True)
     elif case['op'] == 'ping':
-        judge_ping(c2, drv, case, None, verbose=True)
+        judge_ping(c2, drv, case, _probe_pong_variant(), None, verbose=True)
     for x in c2.violations:
         print('  %s: %s' % (x['signature'], x['what']))
         print('    expected %s' % (x['expected'],))
